@@ -11,6 +11,7 @@ def run(ctx):
         ctx.validate("", "Trace_RxPath", "Trace_RxPath.cfg", ctx.replay, shards=1, label="replay (recorded trace)", extra_env=ENV)
         return ctx.finish()
     rxcommon.design(ctx, thorough)
+    rxcommon.reader_design(ctx)
     scn = rxcommon.tlc_behaviours(ctx, 4000 if thorough else 600)
     s0 = rxcommon.drive(ctx, "u2", ["-scn", scn], "TLC-generated behaviours, concretised", env=ENV)
     s1 = rxcommon.drive(ctx, "frag", ["-frag", 200 if thorough else 24, "-maxcuts", 400 if thorough else 100],
